@@ -46,6 +46,16 @@ def gen_prev(r, tier):
     return dict(items=items, kind=kind, steps=steps)
 
 
+def gen_slowhead(r):
+    """Directed: a command that is silent for longer than the "Loading .." delay and then prints several lines;
+    the cursor moves only after the previous preview has been shown in full — every line of the pane must then
+    belong to the line the cursor is on."""
+    n = r.choice([3, 5, 8])
+    items = ['%d 0' % k for k in range(n)]
+    steps = [(1700, r.choice(['up', 'down', 'up', 'last', 'first', 'up+up'])) for _ in range(r.randint(1, 3))]
+    return dict(items=items, kind='slowhead', steps=steps)
+
+
 def alive_state(pid):
     try:
         return open('/proc/%d/stat' % pid).read().split(') ')[1][0]
@@ -72,6 +82,8 @@ def run_prev(fzf, tmp, sc):
         tdir = os.path.join(d, 'tmpdir')
         os.mkdir(tdir)
         def mkcmd(kind):
+            if kind == 'slowhead':
+                return ('x={}; k=${x%%%% *}; echo "S $$ $k q="\'\' >> %s; sleep 0.8; echo "OUT $k"; echo "L2 $k"; echo "L3 $k"' % log)
             body = {'plain': 'echo "OUT $k"', 'query': 'echo "OUT $k" {q}', 'plus': 'echo "OUT $k"; echo SEL {+}', 'file': 'echo "OUT $k"; cat {f}'}[kind]
             return ('x={}; k=${x%% *}; d=${x#* }; echo "S $$ $k q="%s >> %s; %s; '
                     'if [ "$d" = inc ]; then for i in 1 2 3 4 5; do echo "line $i"; sleep 0.05; done; else exec sleep $d; fi'
@@ -119,7 +131,16 @@ def run_prev(fzf, tmp, sc):
             curk = cur['text'].split(' ')[0] if cur else '-'
             lastk, lastq = (entries[-1][1] or '-', entries[-1][2]) if entries else ('-', '')   # no current line: {} expands to nothing
             shown = 0
-            if cur:
+            if cur and sc['kind'] == 'slowhead':
+                # every line of the output must be the current line's: none left over from the one shown before
+                for _ in range(25):
+                    rows = s.capture()
+                    l2 = [row for row in rows if 'L2 ' in row or 'L3 ' in row]
+                    if any(('OUT %s' % curk) in row for row in rows) and len(l2) == 2 and all(('L2 %s' % curk) in row or ('L3 %s' % curk) in row for row in l2):
+                        shown = 1
+                        break
+                    time.sleep(0.1)
+            elif cur:
                 for _ in range(10):
                     if any(('OUT %s' % curk) in row for row in s.capture()):
                         shown = 1
@@ -247,7 +268,8 @@ def drv_preview(tier, seed, ctx):
     from vcheck import evaluate
     n = 24 if tier == 'quick' else 400
     r = random.Random(seed * 32452843 + 9)
-    scs = [gen_prev(r, tier) for _ in range(n)] + [gen_tail(r) for _ in range(6 if tier == 'quick' else 60)]
+    scs = ([gen_prev(r, tier) for _ in range(n)] + [gen_tail(r) for _ in range(6 if tier == 'quick' else 60)] +
+           [gen_slowhead(r) for _ in range(4 if tier == 'quick' else 40)])
     notes = []
     with ThreadPoolExecutor(max_workers=8) as ex:
         outs = list(ex.map(lambda sc: _work(ctx, sc), scs))
